@@ -8,7 +8,10 @@ import Gotree.Lemmas.C05
 import Gotree.Proofs.C05
 import Gotree.Proofs.C06
 import Gotree.Proofs.C07
-import Gotree.Proofs.C15
+import Gotree.Lemmas.C15Graft
+import Gotree.Lemmas.C15InsertAll
+import Gotree.Lemmas.C15Single
+import Gotree.Lemmas.C15Copy
 import Gotree.Proofs.C17
 import Gotree.Lemmas.C16
 
@@ -536,6 +539,40 @@ theorem graftKids_ns {tip : String} {G : T} (hG : G.noSingleBelow = true) : ∀ 
     · simp [noSingleL, graftAt_ns hG t t' ht hns.1, hns.2]
     · simp [noSingleL, hns.1, graftKids_ns hG r r' hr hns.2]
 end
+
+/- ## facts about C15's models derived from its lemma files (not from Proofs/C15, which also
+   carries the table decisions regenerated from the repository under test) -/
+
+theorem graft_tips_c03 {t g t' : T} {tip : String} (h : Gotree.C15.graft true t tip g = .ok t') :
+    t'.tipNames.Perm (t.tipNames.erase tip ++ (Gotree.C15.asGraft g).leaves) := by
+  obtain ⟨hroot, k', hk, rfl⟩ := Gotree.C15.graft_ok h
+  have hp := Gotree.C15.graftKids_perm t.kids k' hk
+  have hl := Gotree.C15.graftKids_length t.kids k' hk
+  simp only [T.tipNames, T.kids_node, T.name, T.d_node, hl]
+  by_cases h1 : t.kids.length = 1
+  · have hne : t.d.name ≠ tip := fun h2 => hroot ⟨h1, h2⟩
+    simp only [h1, beq_self_eq_true, if_true, List.singleton_append]
+    rw [List.erase_cons_tail (by simpa using hne)]
+    exact (hp.cons _)
+  · simpa [h1] using hp
+
+theorem insertIdentical_nodup_c03 {t t' : T} {groups : List (List String)}
+    (h : Gotree.C15.insertIdentical true t groups = (t', none)) (hu : t.tipNames.Nodup)
+    (hne : ∀ g ∈ groups, "" ∉ g) : t'.tipNames.Nodup := by
+  have h0 : Gotree.C15.Inv t t t.tipNames groups.flatten [] :=
+    ⟨hu, fun _ => Iff.rfl, fun _ _ _ _ => rfl, fun _ ha => ha, fun _ hx => Or.inl hx, fun g hg => by cases hg⟩
+  obtain ⟨tips', hI⟩ := Gotree.C15.insertGroups_inv groups [] t t.tipNames t' h0 hne
+    (fun g hg x hx => List.mem_flatten.mpr ⟨g, hg, hx⟩) (by simpa using Gotree.C15.insertIdentical_ok h)
+  exact hI.nodup
+
+theorem merge_nodup_c03 {t t2 t' : T} (h : Gotree.C15.merge true true t t2 = .ok t')
+    (hu : t.tipNames.Nodup) (hu2 : t2.tipNames.Nodup) : t'.tipNames.Nodup := by
+  obtain ⟨_, _, hd, _⟩ := Gotree.C15.merge_ok h
+  rw [Gotree.C15.merge_tipNames h]
+  refine List.nodup_append.mpr ⟨hu, hu2, fun a ha b hb hab => ?_⟩
+  subst hab
+  have := List.any_eq_false.mp hd a ha
+  simp [hb] at this
 
 /- ## InsertIdenticalTips keeps "no single-child node" -/
 
